@@ -67,7 +67,33 @@ CLAIM = {
             'call log, runned_reps, stored statistics (unique per-call tokens) and files after the restart are '
             'compared with the model, once with exception unwinding and once on a directory snapshot taken at the '
             'crash (hard kill); independent oracles re-check the property from files and raw call logs.',
-    'note': 'Power loss (one level below os.replace): Model/C07Power.lean gives every file a buffer, an OS content and a '
+    'note': 'R8-R14: R8 argument forms - simulate() / simulate(None) / simulate(param_variation_index=None), '
+            'set_results_filename positional / keyword, partial_results_folder default / explicitly the default / custom / '
+            'None, delete flag explicit, the configuration setters in random order, and the documented equivalent entry '
+            'point: the restart as simulate(0), simulate(1), ... (same or fresh runner per call) followed by simulate() - '
+            'in the MODEL (simSingleC / simSinglesC, driver via=singles[:list]; theorem single_variation_run: crash spec, '
+            'other files untouched, the saved file is what a later simulate() loads) + correspondence + oracles; there is '
+            'no constructor path for this configuration (the constructor only takes a config file). R9 the variation '
+            'index as int / np.int8..int64 / np.uint8/16 / np.intp / 0-d array / str / bool, positional and keyword, '
+            'indexes 255..257 of 258 variations: correspondence + oracle. R10 result values whose type changes from '
+            'repetition to repetition (np.int32/int16/int/int64 then float/float32 with .5 fractions; the sum must not '
+            'be truncated to the first type) and parameter lists with mixed element types: correspondence + oracle. R11 '
+            '27 query methods of runner / parameters / results (repr, properties, get_*, ==, !=, to_dict, pickle, deep '
+            'copies) called before and after every run with everything observable (values, value TYPES, file names, files) '
+            'compared around each call, the runs then compared with the model as usual: oracle (query-mutates:<name>, '
+            'query-raises:<name>) + correspondence; in the model every function is pure. R12 insertion order of the '
+            'parameters (different in the two runs), of the configuration steps and of the named results inside every '
+            'repetition (all SUMTYPE, so a positional mix-up is silent), results checked by NAME (named-result-mixed-up): '
+            'correspondence + oracle. R13 unpacked children mutated after derivation (values, added / removed '
+            'parameters) must not reach the parent or the run; the parent changed IN PLACE (add / remove / __setitem__ / '
+            'set_unpack_parameter / growing the list object the user holds) on the interrupted runner before it simulates '
+            'again must be refused or extended exactly like a new configuration; pickle round trip of a child gives the '
+            'child; the saved partial file carries the child: correspondence + oracle. R14 258 variations (3-digit file '
+            'names, indexes above 256), 300 named results per repetition, 300 parameters (a change in p257 alone must be '
+            'refused): correspondence + oracle, sampled crash points (quick: 2 of the 258-variation run; 2^16+1 is not '
+            'cheap here: 5 ms per repetition). A library exception anywhere (configuration, first run, queries, reading) '
+            'is a failing input with a replay (first-run-raises / library-exception / restart-fails), never exit 2. '
+            'Power loss (one level below os.replace): Model/C07Power.lean gives every file a buffer, an OS content and a '
             'durable content; atomic_protocol_power_safe / power_loss_is_a_crash_point prove that with the protocol '
             '[open tmp, write, flush, fsync, close, rename] a power loss after ANY prefix of the trace leaves exactly '
             'the results files a process kill at that point leaves (old complete or new complete, sound again), so '
@@ -338,7 +364,8 @@ def case_line(case, pts):
         return ','.join(str(x) for x in c)
     return ('resume via=%s mode=%s period=%d secs=%d keep=%s n1=%d rm1=%d tags1=%s outs1=%s clk1=%s '
             'n2=%d rm2=%d tags2=%s outs2=%s clk2=%s pts=%s') % (
-        case.get('via', 'all'), case.get('mode', 'atomic'), PERIOD, SECS, ';'.join(case['keep']),
+        case.get('via', 'all') + (':' + ','.join(map(str, case['single_idx'])) if case.get('single_idx') else ''),
+        case.get('mode', 'atomic'), PERIOD, SECS, ';'.join(case['keep']),
         len(t1), case['rm1'], ','.join(map(str, t1)), outs(case['outs1']), clk(case['clk1']),
         len(t2), case['rm2'], ','.join(map(str, t2)), outs(case['outs2']), clk(case['clk2']),
         'all' if pts is None else ','.join(map(str, pts)))
@@ -828,8 +855,10 @@ def observable(runner):
     """everything a query must leave alone"""
     res = runner.results
     names = sorted(res.get_result_names())
+    saver = runner._simulation_results_saver
     return (repr(runner.rep_max), params_key(runner.params), tuple(runner.params.unpacked_parameters),
-            tuple(sorted(runner.params.parameters)), runner.results_filename, runner.partial_results_folder,
+            tuple(sorted((k, describe(v)) for k, v in runner.params.parameters.items())),
+            runner.results_filename, saver.results_base_filename, runner.partial_results_folder,
             runner.delete_partial_results_bool, repr(runner.runned_reps),
             tuple((n, tuple((repr(r._value), repr(r._total), r.num_updates) for r in res[n])) for n in names
                   if n != 'elapsed_time'))
@@ -923,7 +952,7 @@ def run_to_end(case, which, root, tab, hooks=None, runner=None, clock=None, buil
                 if which == 2 and case.get('via') == 'singles':
                     # R8/R9: one `simulate(index)` per variation (index in many forms), then `simulate()`
                     fl = case.get('idx_forms') or ['int']
-                    for i in range(nvar_of(case['p2'])):
+                    for i in (case.get('single_idx') or range(nvar_of(case['p2']))):
                         r = runner
                         if case.get('via_fresh'):
                             r = make_runner(case, which)
@@ -1623,11 +1652,12 @@ def big_cases():
     """R9/R14: counts above 256 (sampled crash points)"""
     out = []
     n = 258
-    p = {'fixed': {'fx0': 7}, 'names': ['a'], 'vals': {'a': list(range(1000, 1000 + n))}, 'rep': {'a': 'nd:int16'}}
+    p = {'fixed': {'fx0': 7}, 'names': ['a'], 'vals': {'a': list(range(1000, 1000 + n))}, 'rep': {'a': 'list'}}
     out.append((dict(p1=p, p2=p, rm1=1, rm2=1, keep=['always'], outs1=[1 + (i % 3) for i in range(n + 3)], clk1=[],
                      outs2=[2] * (n + 3), clk2=[], ext='', variant='same', via='singles',
-                     idx_forms=['np.int16', 'np.uint16', 'int', 'np.int64', 'str', 'np.intp', 'nd0', 'kw:np.int64']),
-                [0, 7 * 100, 7 * 129 + 3, 7 * 256 + 6, 7 * 257 + 1, 7 * n + 6]))
+                     single_idx=[257, 0, 256, 129, 255, 257],
+                     idx_forms=['np.int16', 'np.uint16', 'int', 'np.int64', 'str', 'kw:np.int64']),
+                [7 * 129 + 5, 7 * 257 + 1, 0, 7 * 100, 7 * 256 + 6, 7 * n + 6]))
     many = {'fixed': dict({'p%03d' % j: j for j in range(300)}, fx0=7), 'names': ['a'], 'vals': {'a': [10, 11]}}
     changed = dict(many, fixed=dict(many['fixed'], p257=0))
     small = dict(rm1=2, rm2=2, keep=['always'], outs1=[1, 2, 1, 2, 1, 1], clk1=[], outs2=[3] * 8, clk2=[], ext='')
@@ -1665,7 +1695,7 @@ def exhaustive_cases():
 
 
 # ------------------------------------------------------------------ the check
-def run_case(ctx, case, pts=None, tears=(0.0, 0.5, 1.0), hard=True, name='crash-restart'):
+def run_case(ctx, case, pts=None, tears=(0.0, 0.5, 1.0), hard=True, name='crash-restart', extras_ok=True):
     """all (or the listed) crash points of one scenario: correspondence + oracles"""
     tab = tag_table(case)
     try:
@@ -1703,7 +1733,7 @@ def run_case(ctx, case, pts=None, tears=(0.0, 0.5, 1.0), hard=True, name='crash-
                 for frac in tears:
                     jobs.append((m - 1, (m, frac)))
     for m, tear in jobs:
-        extras = tear is None and (m % 3 == 0 or m == len(kinds))
+        extras = extras_ok and tear is None and (m % 3 == 0 or m == len(kinds))
         evk = (kinds[m - 1] if 1 <= m <= len(kinds) else 'start') if tear is None else 'tear'
         # power loss: the files change only at file events; quick samples the boundaries that matter most
         if ctx.tier == 'quick':
@@ -1910,12 +1940,14 @@ def check(ctx):
                              'R14:more-than-256-parameters']
     try:
         rng = ctx.rng.fork('cases')
-        fixed = corpus_cases() + robust_cases() + robust2_cases()
-        for c in fixed:
+        for c in corpus_cases():
             run_case(ctx, c)
-        for c, pts in big_cases()[:None if not quick else 3]:
-            run_case(ctx, c, pts=pts, tears=(0.5,), name='crash-restart-large-counts')
-        for c in [gen_case(rng) for _ in range(14 if quick else 200)]:
+        for c in robust_cases() + robust2_cases():
+            run_case(ctx, c, tears=(0.5,) if quick else (0.0, 0.5, 1.0))
+        for c, pts in big_cases():
+            run_case(ctx, c, pts=pts[:2] if quick else pts, tears=(), extras_ok=False,
+                     name='crash-restart-large-counts')
+        for c in [gen_case(rng) for _ in range(10 if quick else 150)]:
             run_case(ctx, c, tears=(0.5,) if quick else (0.0, 0.5, 1.0))
         for c in corpus_cases()[:2 if quick else 5] + ([] if quick else [gen_case(rng) for _ in range(20)]):
             if diff_kind(c) == 'same' and not c.get('same_runner'):
